@@ -280,6 +280,20 @@ func c01Explore(b *px.Built, r *px.Runner, famName string, idx int64, L, Lpos, N
 		})
 	}
 	nSent := 0
+	var treeOut []mc.Violation
+	// the sentence the nested parser reads: the longest one within the bound (first in lexicographic order)
+	var innerSent []int
+	for _, s := range cfgref.SortedStrings(sent) {
+		if len(s) <= L && len(s) >= len(innerSent) && (innerSent == nil || len(s) > len(innerSent)) {
+			innerSent = make([]int, len(s))
+			for i := range s {
+				innerSent[i] = int(s[i]) - cfgref.TokOff + 2
+			}
+		}
+	}
+	if len(innerSent) == 0 {
+		innerSent = nil
+	}
 	check := func(w []int) {
 		o := r.Run(w)
 		st.Evaluations++
@@ -301,6 +315,57 @@ func c01Explore(b *px.Built, r *px.Runner, famName string, idx int64, L, Lpos, N
 			}
 			if !clean && member {
 				report("rejects-sentence", w, fmt.Sprintf("input is a sentence but parse() returned %v (error production ran: %v)", o.OK, ranErrorProd(b, o.Events)))
+			}
+			if clean && member {
+				if why := derivationProblem(b, o.Events, w); why != "" && len(treeOut) < 2 {
+					treeOut = append(treeOut, mc.Violation{
+						Property: "C03", Check: "C01", Kind: "carrier-derivation", Size: len(g.String())*100 + len(w),
+						Case:   mkCase(famName, idx, g, L, w),
+						Detail: fmt.Sprintf("grammar {%s} input %s: the reductions of the successful parse do not form a derivation tree of the input in the emitted grammar: %s", g.String(), inputText(g, w), why),
+					})
+				}
+				st.Add("derivations_checked", 1)
+				// Parser values are independent: the same parse again, with the action of
+				// its k-th reduction parsing another sentence with a parser of its own
+				// (what an include-style action does), for every k.
+				if len(treeOut) == 0 && innerSent != nil {
+					nred := 0
+					for _, e := range o.Events {
+						if e.Kind == ctypes.EvReduce {
+							nred++
+						}
+					}
+					for k := 0; k < nred && k < 12 && len(treeOut) == 0; k++ {
+						on, ran, innerOK, innerEvs := r.RunNested(w, k, innerSent)
+						st.Add("nested_parses", 1)
+						why := ""
+						switch {
+						case on.Panic != "":
+							why = "the parse panicked: " + firstLine(on.Panic)
+						case on.Hang != "" || on.Incon:
+							why = "the outer parse does not terminate: " + on.Hang
+						case !ran:
+							why = fmt.Sprintf("the outer parse made fewer than %d reductions this time", k+1)
+						case !on.OK:
+							why = "the outer parse failed"
+						case !innerOK:
+							why = "the inner parse of a sentence failed"
+						default:
+							if why = derivationProblem(b, on.Events, w); why != "" {
+								why = "outer parse: " + why
+							} else if why = derivationProblem(b, innerEvs, innerSent); why != "" {
+								why = "inner parse: " + why
+							}
+						}
+						if why != "" {
+							treeOut = append(treeOut, mc.Violation{
+								Property: "C03", Check: "C01", Kind: "nested-parser-interferes", Size: len(g.String())*100 + len(w),
+								Case:   mkCase(famName, idx, g, L, w),
+								Detail: fmt.Sprintf("grammar {%s} input %s, with the action of reduction #%d parsing %s with a second parser value: %s (alone, the parse succeeds with a correct derivation)", g.String(), inputText(g, w), k, inputText(g, innerSent), why),
+							})
+						}
+					}
+				}
 			}
 		}
 	}
@@ -329,7 +394,103 @@ func c01Explore(b *px.Built, r *px.Runner, famName string, idx int64, L, Lpos, N
 	if nSent >= 2 {
 		st.Nontrivial++
 	}
-	return out
+	return append(out, treeOut...)
+}
+
+// derivationProblem checks the reductions of one successful, error-free parse
+// against the grammar object the tables were emitted from: every reduction of
+// production p pops exactly p's terms, in production order (a token of the
+// term's type, or a node of the term's rule), the reductions form one tree
+// rooted in the start rule, and its leaves are the input tokens, each once and
+// in order. (What a reduction *receives* is C03's statement; on the carrier the
+// generic action records the popped slots.) "" = no problem.
+func derivationProblem(b *px.Built, evs []ctypes.Ev, w []int) string {
+	isKid := map[*ctypes.Node]bool{}
+	var nodes []*ctypes.Node
+	for _, e := range evs {
+		if e.Kind != ctypes.EvReduce {
+			continue
+		}
+		if e.N == nil {
+			return "a reduction without a node"
+		}
+		nodes = append(nodes, e.N)
+		if int(e.N.Prod) < 0 || int(e.N.Prod) >= len(b.ProdTerms) {
+			return fmt.Sprintf("reduction by production %d, which the grammar does not have", e.N.Prod)
+		}
+		terms := b.ProdTerms[e.N.Prod]
+		if len(e.N.Kids) != len(terms) {
+			return fmt.Sprintf("reduction of {%s = %v} took %d stack slots", b.ProdRule[e.N.Prod], terms, len(e.N.Kids))
+		}
+		for i, k := range e.N.Kids {
+			switch v := k.(type) {
+			case ctypes.Token:
+				if v.Type < 0 || v.Type >= len(b.TermNames) || b.TermNames[v.Type] != terms[i] {
+					return fmt.Sprintf("reduction of {%s = %v}: slot %d holds a token of type %d", b.ProdRule[e.N.Prod], terms, i, v.Type)
+				}
+			case *ctypes.Node:
+				if v == nil || isKid[v] {
+					return fmt.Sprintf("reduction of {%s = %v}: slot %d holds a result that was already consumed", b.ProdRule[e.N.Prod], terms, i)
+				}
+				isKid[v] = true
+				if b.ProdRule[v.Prod] != terms[i] {
+					return fmt.Sprintf("reduction of {%s = %v}: slot %d holds a result of rule %s", b.ProdRule[e.N.Prod], terms, i, b.ProdRule[v.Prod])
+				}
+			default:
+				return fmt.Sprintf("reduction of {%s = %v}: slot %d holds %T", b.ProdRule[e.N.Prod], terms, i, k)
+			}
+		}
+	}
+	var root *ctypes.Node
+	for _, n := range nodes {
+		if !isKid[n] {
+			if root != nil {
+				return "the reductions form more than one tree"
+			}
+			root = n
+		}
+	}
+	if root == nil {
+		return "no reduction"
+	}
+	if rn := b.ProdRule[root.Prod]; rn != b.G.Rules[0].Name && rn != "S'" {
+		return "the root of the tree is a reduction of rule " + rn
+	}
+	// every reduction happens after its children (bottom-up) and the leaves are the input
+	order := map[*ctypes.Node]int{}
+	for i, n := range nodes {
+		order[n] = i
+	}
+	pos := 0
+	var walk func(n *ctypes.Node) string
+	walk = func(n *ctypes.Node) string {
+		last := -1
+		for _, k := range n.Kids {
+			switch v := k.(type) {
+			case ctypes.Token:
+				if pos >= len(w) || v.Idx != pos || v.Type != w[pos] {
+					return fmt.Sprintf("leaf #%d of the tree is token #%d of type %d", pos, v.Idx, v.Type)
+				}
+				pos++
+			case *ctypes.Node:
+				if order[v] >= order[n] || order[v] < last {
+					return "a reduction ran before one of its children or children were reduced out of order"
+				}
+				last = order[v]
+				if s := walk(v); s != "" {
+					return s
+				}
+			}
+		}
+		return ""
+	}
+	if s := walk(root); s != "" {
+		return s
+	}
+	if pos != len(w) {
+		return fmt.Sprintf("the tree has %d leaves, the input %d tokens", pos, len(w))
+	}
+	return ""
 }
 
 func maxInt(a, b int) int {
